@@ -1,13 +1,14 @@
 (** C08 - Type definitions are validated: a working codec or an error, never a
-    panic.  PARTIAL: "a codec that obeys the other properties" is linked to the
-    other theorems through the structural facts of accepted definitions proved
-    here (unique indexes, bounded indexes, field count); that every accepted
-    codec lies in the round-trip fragment is decided by the correspondence
-    (every accepted generated definition gets a round-trip smoke test).
+    panic.  "A codec that obeys the other properties": every codec tree that
+    [codec_for] returns is structurally sound ([sane]: distinct, bounded,
+    non-negative indexes; distinct slots inside the struct; the slice forms sit
+    over elements of the wire type they need; fixed-width slices have a width)
+    and therefore decodes arbitrary bytes totally (C04's theorem) and
+    round-trips (C01's theorem, on the fragment that theorem covers).
     Known findings: a huge index makes construction allocate an unbounded
     lookup table (D22, the model's [Blowup]); a recursive named non-struct type
     overflows the stack (D26, outside the model's type language). *)
-From Plenc Require Import Base Varint Wire JsonAny Codec Registry RegistryProofs.
+From Plenc Require Import Base Varint Wire JsonAny Codec DecBase DecProofs Registry RegistryProofs RoundTrip RegistryWf.
 Open Scope N_scope.
 
 (** asking for a codec never panics and always terminates: a codec, an error,
@@ -61,6 +62,27 @@ Proof.
   destruct (negb (fd_exported fd)); reflexivity.
 Qed.
 Print Assumptions C08_skipped_fields.
+
+(** every accepted codec tree is structurally sound, whatever the type, the
+    tag, the environment of struct definitions and the instance configuration *)
+Theorem C08_accepted_sane : forall C E fuel t tag c, codec_for C E fuel t tag = Ok c -> sane c.
+Proof. exact codec_for_sane. Qed.
+Print Assumptions C08_accepted_sane.
+
+(** ... so it never crashes or hangs on any input ([bottom_free]: no recursive
+    type was cut off by the model's unfolding limit) *)
+Theorem C08_accepted_total : forall C E fuel t tag c,
+  codec_for C E fuel t tag = Ok c -> bottom_free c = true ->
+  forall data wt prior, good (dec c data wt prior) (len data).
+Proof. exact accepted_total. Qed.
+Print Assumptions C08_accepted_total.
+
+(** ... and it round-trips every value ([frag]: the codec constructors covered
+    by C01's theorem - no maps, protobuf forms, JSON / BQ codecs) *)
+Theorem C08_accepted_roundtrips_partial : forall C E fuel t tag c,
+  codec_for C E fuel t tag = Ok c -> frag c = true -> RTc c.
+Proof. exact accepted_roundtrips. Qed.
+Print Assumptions C08_accepted_roundtrips_partial.
 
 Example C08_ex :
   let E := [mksdef [] [mkfdef true [65] [49] [] (TInt 0); mkfdef false [98] [] [] (TInt 0); mkfdef true [67] [45] [] (TBad 3);
